@@ -16,7 +16,7 @@ VS_SPECS = [("i:1", 6), ("i:0", 6), ("i:-3", 1), ("s:yes", 1), ("s:", 1), ("arr"
 class C20(Prop):
     id = "C20"
     title = "uid/euid change only as the master allows; without euid no object creation"
-    lean_modules = ["NV.C20.Props"]
+    lean_modules = ["NV.C20.Props", "NV.C20.Tie", "NV.C20.Negative"]
     theorems = [
         "NV.C20.model_satisfies_spec",
         "NV.C20.euid_changes_only_by_own_approved_seteuid",
@@ -27,9 +27,16 @@ class C20(Prop):
         "NV.C20.seteuid_always_asks_master",
         "NV.C20.no_crash",
         "NV.C20.every_object_has_uid",
+        # translator ties: the regenerated guards / statements equal what the model does
+        "NV.C20.tie_load_guard", "NV.C20.tie_load_no_current", "NV.C20.tie_load_test_first",
+        "NV.C20.tie_clone_entry", "NV.C20.tie_clone_retest", "NV.C20.tie_clone_order",
+        "NV.C20.tie_export_error", "NV.C20.tie_export_target", "NV.C20.tie_export_assign",
+        "NV.C20.tie_seteuid_shape", "NV.C20.tie_seteuid_verdict", "NV.C20.tie_seteuid_null_verdict",
+        "NV.C20.tie_giveuid_shape",
     ]
-    consts = [("autoTrustBackbone", "NV_AUTO_TRUST_BACKBONE"), ("autoSeteuid", "NV_AUTO_SETEUID")]
-    const_headers = ["lib/efuns/options.h"]
+    consts = [("autoTrustBackbone", "NV_AUTO_TRUST_BACKBONE"), ("autoSeteuid", "NV_AUTO_SETEUID"),
+              ("tNumber", "T_NUMBER"), ("tString", "T_STRING"), ("msMudlibLimbo", "MS_MUDLIB_LIMBO")]
+    const_headers = ["lib/efuns/options.h", "lpc/types.h", "src/simulate.h"]
     const_prelude = ("#ifdef AUTO_TRUST_BACKBONE\n#define NV_AUTO_TRUST_BACKBONE 1\n#else\n#define NV_AUTO_TRUST_BACKBONE 0\n#endif\n"
                      "#ifdef AUTO_SETEUID\n#define NV_AUTO_SETEUID 1\n#else\n#define NV_AUTO_SETEUID 0\n#endif\n")
     quick_n = 400
@@ -50,13 +57,17 @@ class C20(Prop):
                   "master applies are oracle functions (a master that calls back into the acting object during an apply is not "
                   "modelled); master/simul_efun reload and function-pointer geteuid are not modelled")
     rule = ("cases = corpus + known-finding inputs + boundary list + seeded random histories of load/clone/seteuid(string|int)/"
-            "export_uid/destruct/reload_object performed by the master and by objects under five directories whose "
+            "export_uid (also onto itself / onto missing objects)/destruct (also of the master = master reload)/reload_object, "
+            "directly, from inside create() of objects under construction (acyclic scripts, nesting up to 8), through function "
+            "pointers evaluated by other objects, and on virtual paths answered by master::compile_object, "
+            "performed by the master and by objects under five directories whose "
             "creator_file answer (own name, other user's name, backbone uid, root uid, NONAME, empty string, int, array, 0, "
             "runtime error) and valid_seteuid verdicts (1, 0, other ints, string, array, 0, runtime error; per object and uid) "
             "are switched during the case; a case is non-trivial when its trace has >= 2 lines; distinct = distinct "
             "canonical implementation trace")
     not_covered = ["the branch of clone_object that re-uses an unreferenced virtual object instead of asking compile_object again (ob->ref == 1) cannot occur with registered objects and is not modelled",
-                   "destruct/reload of the master or simul_efun object (set_master on reload) is not modelled; the model's master is loaded once",
+                   "reload of the simul_efun object, reload_object(master), a master without get_root_uid()/get_bb_uid() (cfg.bb = none is proved but not run), bind(), "
+                   "loads started by the driver itself without a current_object (preload, connect(); the translator tie `tie_load_no_current` covers the guard) and creation from call_out/heart_beat are not exercised",
                    "a master apply that calls back into the creating object (e.g. makes it seteuid(0) during creator_file) is not modelled",
                    "the simul_efun object has uid NONAME / euid 0 and no exemption in load_object/clone_object; it is not an actor in the harness",
                    "geteuid(function) is not exercised",
@@ -83,7 +94,9 @@ class C20(Prop):
                         hits.append(os.path.relpath(p, E.REPO))
         if hits:
             raise X.TieBroken("option:AUTO_SETEUID", "source now depends on AUTO_SETEUID (not modelled): %s" % hits)
-        return ""
+        from props import c20_extract
+        tn = X.probe_values(bdir, [("tNumber", "T_NUMBER")], ["lpc/types.h"])["tNumber"]
+        return c20_extract.generate(bdir, tn)
 
     def prepare(self, ctx):
         self.exe = E.compile_harness("c20", [os.path.join(E.VERIF, "harness/c20/c20.c")])
@@ -215,6 +228,18 @@ class C20(Prop):
                                     "do u1a clone,c1,/c20/u1/v1", "do u1a seteuid,s:u1", "do u1a clone,c1,/c20/u1/v1"])
         mk("nested-reload", ["script /c20/u1/a seteuid,s:u1;reload,u2a;reload,u1a;reload,m;load,/c20/u2/b", "script /c20/u2/b reload,u1a;reload,u2a",
                              "do m load,/c20/u2/a", "do u2a seteuid,s:u2", "do m load,/c20/u1/a"])
+        # ---- round 4: reload of the master, function pointers evaluated by other objects -----------------------------
+        mk("master-reload", ["pol cf u1 s:zed", "pol vs m * i:1", "do m load,/c20/u1/a", "do u1a dest,m", "do m seteuid,s:x9",
+                             "do m seteuid,i:0", "do u1a seteuid,s:u1", "do u1a dest,m", "do u1a load,/c20/u1/b", "do m seteuid,i:0",
+                             "do m dest,m", "do m load,/c20/u1/c", "do m export,u1c", "do u1c dest,m", "do zz dest,m"])
+        mk("master-reload-nested", ["script /c20/u1/a seteuid,s:u1;dest,m", "do m seteuid,i:0", "do m load,/c20/u1/a", "do u1a dest,m"])
+        mk("funptr-owner-euid", ["do m load,/c20/u1/a", "do m load,/c20/u2/a", "do u1a seteuid,s:u1", "do u2a via,u1a,load,/c20/u1/b",
+                                 "do u1a via,u2a,load,/c20/u1/c", "do u1a via,u2a,clone,c1,/c20/u1/b", "do u1a via,u2a,seteuid,s:zed",
+                                 "do u1a via,zz,seteuid,s:zed", "do u2a via,u1a,via,u2a,clone,c1,/c20/u1/b",
+                                 "do u2a via,u1a,export,u1b", "do m via,u1a,seteuid,i:0", "do m via,u1a,dest,u1b", "do u2a via,m,dest,m",
+                                 "do u1a via,m,load,/c20/bb/a"])
+        mk("funptr-in-create", ["script /c20/u2/a via,u1a,load,/c20/u2/b;via,u2a,load,/c20/u2/c;load,/c20/u2/c",
+                                "do m load,/c20/u1/a", "do u1a seteuid,s:u1", "do u1a load,/c20/u2/a"])
         return B
 
     def gen_scripts(self, rng):
@@ -327,21 +352,26 @@ class C20(Prop):
                     lines.append("pol vs %s %s %s" % (o, u if u != "" else "-", rng.weighted(VS_SPECS)))
                 continue
             a = actor()
+            caller = actor() if rng.chance(1, 8) else None
+
+            def DO(owner, op):
+                # optionally through a function pointer: <caller> evaluates a function made by <owner>
+                return "do %s via,%s,%s" % (caller, owner, op) if caller else "do %s %s" % (owner, op)
             k = rng.weighted([("seteuid", 10), ("load", 9), ("clone", 9), ("export", 7), ("dest", 2), ("reload", 2),
                               ("seteuid0", 3), ("seteuidint", 1), ("cferr", 2)])
             if k == "seteuid":
-                lines.append("do %s seteuid,s:%s" % (a, rng.choice(NAMES)))
+                lines.append(DO(a, "seteuid,s:%s" % rng.choice(NAMES)))
                 if a in objs and not refuse_default:
                     objs[a] = True
             elif k == "seteuid0":
-                lines.append("do %s seteuid,i:0" % a)
+                lines.append(DO(a, "seteuid,i:0"))
                 if a in objs:
                     objs[a] = False
             elif k == "seteuidint":
-                lines.append("do %s seteuid,i:%d" % (a, rng.choice([1, -1, 5, 0])))
+                lines.append(DO(a, "seteuid,i:%d" % rng.choice([1, -1, 5, 0])))
             elif k == "load":
                 p = path()
-                lines.append("do %s load,%s" % (a, p))
+                lines.append(DO(a, "load,%s" % p))
                 created(a, p)
             elif k == "clone":
                 nclone[0] += 1
@@ -349,18 +379,18 @@ class C20(Prop):
                 if rng.chance(1, 30):
                     o = rng.choice(["m", "u1a", "c1"])
                 p = path()
-                lines.append("do %s clone,%s,%s" % (a, o, p))
+                lines.append(DO(a, "clone,%s,%s" % (o, p)))
                 created(a, p, o)
             elif k == "export":
-                lines.append("do %s export,%s" % (a, some_obj(True)))
+                lines.append(DO(a, "export,%s" % some_obj(True)))
             elif k == "dest":
-                t = some_obj()
-                lines.append("do %s dest,%s" % (a, t))
+                t = some_obj() if rng.chance(5, 6) else "m"
+                lines.append(DO(a, "dest,%s" % t))
                 if t != "m":
                     objs.pop(t, None)
             elif k == "reload":
                 t = some_obj()
-                lines.append("do %s reload,%s" % (a, t))
+                lines.append(DO(a, "reload,%s" % t))
                 if t in objs and t != "m":
                     objs[t] = False
             else:
@@ -381,7 +411,8 @@ class C20(Prop):
     def histogram(self, cases, impl):
         h = {"steps": 0, "creations": 0, "cf_error": 0, "late_init": 0, "seteuid_approved": 0, "seteuid_refused": 0,
              "seteuid_zero": 0, "export_ok": 0, "export_refused": 0, "export_error": 0, "noeuid_load_error": 0,
-             "noeuid_clone_error": 0, "compile_object_calls": 0, "virtual_handed_out": 0, "nested_ops": 0, "nested_creations": 0, "nested_noeuid_refused": 0, "max_nesting": 0, "backbone_grants": 0, "policy_errors": 0, "nobj": 0, "reloads": 0,
+             "noeuid_clone_error": 0, "compile_object_calls": 0, "virtual_handed_out": 0, "funptr_ops": 0, "funptr_noeuid_refused": 0,
+             "master_reloads": 0, "master_reload_refused": 0, "export_onto_self": 0, "nested_ops": 0, "nested_creations": 0, "nested_noeuid_refused": 0, "max_nesting": 0, "backbone_grants": 0, "policy_errors": 0, "nobj": 0, "reloads": 0,
              "crash": 0}
         for c in cases:
             cur = None
@@ -393,6 +424,8 @@ class C20(Prop):
                     continue
                 if t[0] == "do":
                     h["steps"] += 1
+                    if len(t) > 2 and t[2] == "export," + t[1]:
+                        h["export_onto_self"] += 1
                     stack.append(cur)
                     if len(stack) > 1:
                         h["nested_ops"] += 1
@@ -419,6 +452,12 @@ class C20(Prop):
                     pend_cf = None
                 elif t[0] == "r" and cur:
                     r = " ".join(t[1:])
+                    if cur.startswith("via,"):
+                        h["funptr_ops"] += 1
+                    if cur == "dest,m":
+                        h["master_reloads" if r == "1" else "master_reload_refused"] += 1
+                    if len(stack) > 1 and stack[-1] and stack[-1].startswith("via,") and ("no_effective_user" in r or "without_effective_UID" in r):
+                        h["funptr_noeuid_refused"] += 1
                     if len(r) > 1 and r[0] == "v" and r[1:].isdigit() and not cur.startswith("clone,v"):
                         h["virtual_handed_out"] += 1
                     if cur.startswith("seteuid,s:"):
